@@ -2,6 +2,7 @@ package checks
 
 import (
 	"fmt"
+	"math"
 	"reflect"
 	"strings"
 
@@ -27,11 +28,12 @@ const (
 	opReset
 	opUnread7
 	opUnreadAll
-	opPeeks   // Peek, PeekLine, PeekColumn: observers, must be self-loops of the state graph
-	opLineCol // Line, Column: observers
+	opPeeks      // Peek, PeekLine, PeekColumn: observers, must be self-loops of the state graph
+	opLineCol    // Line, Column: observers
+	opUnreadZero // UnreadMany(0), UnreadMany(-1), UnreadMany(math.MinInt): nothing to step back, self-loops
 )
 
-var c11OpNames = []string{"Read", "Unread", "UnreadMany(2)", "UnreadMany(3)", "Reset", "UnreadMany(7)", "UnreadMany(len+3)", "Peek+PeekLine+PeekColumn", "Line+Column"}
+var c11OpNames = []string{"Read", "Unread", "UnreadMany(2)", "UnreadMany(3)", "Reset", "UnreadMany(7)", "UnreadMany(len+3)", "Peek+PeekLine+PeekColumn", "Line+Column", "UnreadMany(0)+UnreadMany(-1)+UnreadMany(MinInt)"}
 
 // forwardLC is the independent rule model: coordinates after reading
 // characters 0..p (p may be len: the end-of-input slot adds nothing).
@@ -91,6 +93,10 @@ func c11Apply(s *rio.StringScanner, op c11Op) rune {
 	case opLineCol:
 		s.Line()
 		s.Column()
+	case opUnreadZero:
+		s.UnreadMany(0)
+		s.UnreadMany(-1)
+		s.UnreadMany(math.MinInt)
 	}
 	return -2
 }
@@ -267,7 +273,7 @@ func c11Run(c *fw.Ctx, content string, depthCap int) {
 			capped = true
 			continue
 		}
-		for op := opRead; op <= opLineCol; op++ {
+		for op := opRead; op <= opUnreadZero; op++ {
 			s := build(nd.hist)
 			ret := c11Apply(s, op)
 			np, wantRet := c11Model(runes, nd.p, op)
@@ -314,7 +320,7 @@ func init() {
 	fw.Register(&fw.Check{
 		ID:    "C11",
 		Level: "model_checking",
-		Rule: "explicit-state BFS of the real StringScanner: one graph per content over {x,LF,CR}; operations {Read,Unread,UnreadMany(2),UnreadMany(3),UnreadMany(7),UnreadMany(len+3),Reset} and the observers {Peek+PeekLine+PeekColumn, Line+Column} as operations of their own (self-loops on a scanner without hidden state); " +
+		Rule: "explicit-state BFS of the real StringScanner: one graph per content over {x,LF,CR}; operations {Read,Unread,UnreadMany(2),UnreadMany(3),UnreadMany(7),UnreadMany(len+3),Reset} and the observers {Peek+PeekLine+PeekColumn, Line+Column} and the multi-unreads by a non-positive count {0,-1,MinInt} as operations of their own (self-loops on a scanner without hidden state); " +
 			"state key = hash of ALL private fields of the object taken before any observer runs; successors built by replaying the shortest history on a fresh scanner, in four modes that call the observers (peeks / line+column / both / none) after every replayed operation; " +
 			"plus patterns of <=3 characters repeated to lengths up to 66; every state is compared with the cursor model, the independent line/column rule and a fresh forward scan; non-trivial = content with a line break and length>=2",
 		Assume: []string{"peek law asserted only where a next character exists (end-of-input slot pinned by C12)"},
@@ -330,7 +336,7 @@ func init() {
 				Run: func(c *fw.Ctx, i int64) {
 					c11Run(c, c11Content(i, maxLen), depth)
 				},
-				Repr:    func(i int64) string { return fmt.Sprintf("content=%q", c11Content(i, maxLen)) },
+				Repr: func(i int64) string { return fmt.Sprintf("content=%q", c11Content(i, maxLen)) },
 			}, {
 				Name: "pumped-contents",
 				N:    (countStrings(3, 3) - 1) * 5,
